@@ -137,7 +137,7 @@ theorem chain_sound (ty : Ty) (op : Op) (hop : op = .add ∨ op = .sub) (y : Exp
   rw [ht1] at a1; rw [ht2] at b1
   refine ⟨wrap ty (v1 + v2), ?_, wrap_inRange ty _, ?_⟩
   · rcases hop with rfl | rfl <;>
-      simp [onInstr, isConst, hy, a1, a2, b1, b2, Op.symbol, chainConst, correct_eq_wrap, hyt]
+      simp [onInstr, isConst, hy, a1, a2, b1, b2, Op.symbol, chainConst, Model.ConstFold.cast, correct_eq_wrap, hyt]
   · intro yv _
     rcases hop with rfl | rfl
     · simp only [binop, Option.bind_some, Option.some.injEq]
@@ -176,7 +176,7 @@ theorem chain_in_range (ty : Ty) (op : String) (y c1 c2 : Expr) (op1 : String) (
   obtain ⟨-, h2, h3⟩ := h
   subst h2
   refine ⟨hty.symm, ?_⟩
-  rw [← h3, ← hty, chainConst, correct_eq_wrap]; exact wrap_inRange ty _
+  rw [← h3, ← hty, chainConst, Model.ConstFold.cast, correct_eq_wrap]; exact wrap_inRange ty _
 
 /-- The oracle used on the real pass: an in-range constant `c3` makes `y op c3` equal to
     `(y op c1) op c2` for every `y` **iff** `c3` is the wrapped sum — so comparing the real pass's
